@@ -5,6 +5,6 @@
 int main(int argc, char **argv) {
     vf::opts o(argc, argv);
     vf::install_crash_handler();
-    RUN("scheduling_programs", 1, false, scn::scheduling_programs(o, R, o.cases));
+    RUN("scheduling_programs", 1, true, scn::scheduling_programs(o, R, o.cases));
     return 0;
 }
